@@ -433,3 +433,16 @@ Proof.
   destruct (f_state (auth (scram_mech H HMAC hsize precis cfg id) lad false (st', rands) sc)) as [sb rb].
   cbn [snd] in ES. subst rb. apply IH.
 Qed.
+
+
+(* ---- mail.Client: every dial authenticates with a mechanism built for that dial ---- *)
+Lemma gen_client_auth_builds_per_dial : Gen.client_auth_keeps_mechanism = false.
+Proof. reflexivity. Qed.
+
+Lemma client_dials_fresh : forall S (mk : nat -> mech S) lad s0 scripts k,
+  client_dials Gen.client_auth_keeps_mechanism mk lad s0 k scripts =
+  map (fun p => obs_of (auth (mk (fst p)) lad false s0 (snd p))) (combine (seq k (length scripts)) scripts).
+Proof.
+  intros S mk lad s0 scripts. rewrite gen_client_auth_builds_per_dial.
+  induction scripts as [|sc rest IH]; intros k; [reflexivity|]. simpl. f_equal. apply IH.
+Qed.
